@@ -243,48 +243,49 @@ def classify(route, kinds, tokens, detail):
     return None
 
 
-# coverage floors: about 1/4 of what the repaired tree gives with seed 0
-# (measured per tier; every counter of the deterministic catalogue is the
-# same for every seed, the random part varies by a few percent)
+# coverage floors: about 1/4 of what the repaired tree gives (quick: minimum
+# over seeds 0,1,2,3,12345; thorough: seed 0, where the 6000 random cases
+# dominate every counter).  The deterministic catalogue alone gives every
+# counter at least once, whatever the seed.
 FLOORS = {
 "quick": {
-    "class:col.check-opt:ignore_na": 8,
+    "class:col.check-opt:ignore_na": 7,
     "class:col.check-opt:n_failure_cases": 10,
     "class:col.check-opt:raise_warning": 8, "class:col.check:equal_to": 8,
     "class:col.check:greater_than": 7,
     "class:col.check:greater_than_or_equal_to": 5,
-    "class:col.check:in_range": 9, "class:col.check:isin": 10,
+    "class:col.check:in_range": 8, "class:col.check:isin": 10,
     "class:col.check:less_than": 5, "class:col.check:less_than_or_equal_to":
-    4, "class:col.check:not_equal_to": 8, "class:col.check:notin": 7,
-    "class:col.check:str_contains": 2, "class:col.check:str_endswith": 2,
+    4, "class:col.check:not_equal_to": 7, "class:col.check:notin": 6,
+    "class:col.check:str_contains": 1, "class:col.check:str_endswith": 1,
     "class:col.check:str_length": 4, "class:col.check:str_matches": 2,
     "class:col.check:str_startswith": 2, "class:col.check:unique_values_eq":
-    8, "feature:col.check-opt": 27, "feature:col.checks": 3,
+    6, "feature:col.check-opt": 27, "feature:col.checks": 3,
     "feature:col.coerce": 1, "feature:col.description": 6,
-    "feature:col.name": 7, "feature:col.nullable": 2, "feature:col.regex":
-    3, "feature:col.required": 1, "feature:col.title": 7,
-    "feature:col.unique": 1, "feature:frame.check": 17,
-    "feature:frame.check-opt": 11, "feature:frame.coerce": 2,
-    "feature:frame.description": 5, "feature:frame.dtype": 3,
+    "feature:col.name": 6, "feature:col.nullable": 1, "feature:col.regex":
+    1, "feature:col.required": 1, "feature:col.title": 7,
+    "feature:col.unique": 1, "feature:frame.check": 16,
+    "feature:frame.check-opt": 8, "feature:frame.coerce": 1,
+    "feature:frame.description": 4, "feature:frame.dtype": 1,
     "feature:frame.name": 4, "feature:frame.ordered": 1,
-    "feature:frame.strict": 1, "feature:frame.title": 5,
-    "feature:frame.unique": 2, "feature:idx.check": 30,
-    "feature:idx.coerce": 1, "feature:idx.description": 4,
-    "feature:idx.name": 58, "feature:idx.nullable": 2, "feature:idx.title":
-    3, "feature:idx.unique": 2, "feature:index": 42, "feature:multiindex":
-    13, "monitor:json:pandera-eq": 181, "monitor:json:projection": 181,
-    "monitor:json:second-generation-text": 181,
-    "monitor:json:source-unchanged": 183, "monitor:json:verdict-vector":
-    181, "monitor:script:earlier-yaml-still-equal": 182,
+    "feature:frame.strict": 1, "feature:frame.title": 4,
+    "feature:frame.unique": 2, "feature:idx.check": 27,
+    "feature:idx.coerce": 1, "feature:idx.description": 3,
+    "feature:idx.name": 55, "feature:idx.nullable": 1, "feature:idx.title":
+    3, "feature:idx.unique": 1, "feature:index": 39, "feature:multiindex":
+    11, "monitor:json:pandera-eq": 180, "monitor:json:projection": 180,
+    "monitor:json:second-generation-text": 180,
+    "monitor:json:source-unchanged": 182, "monitor:json:verdict-vector":
+    180, "monitor:script:earlier-yaml-still-equal": 181,
     "monitor:script:pandera-eq": 183, "monitor:script:projection": 183,
     "monitor:script:second-generation-text": 183,
     "monitor:script:source-unchanged": 183, "monitor:script:verdict-vector":
-    183, "monitor:yaml:pandera-eq": 182, "monitor:yaml:projection": 182,
-    "monitor:yaml:second-generation-text": 182,
+    183, "monitor:yaml:pandera-eq": 181, "monitor:yaml:projection": 181,
+    "monitor:yaml:second-generation-text": 181,
     "monitor:yaml:source-unchanged": 183, "monitor:yaml:verdict-vector":
-    182, "part:catalogue": 146, "part:random": 37, "probe:accept": 372,
-    "probe:reject": 726, "roundtrip_ok:json": 174, "roundtrip_ok:script":
-    176, "roundtrip_ok:yaml": 174
+    181, "part:catalogue": 146, "part:random": 36, "probe:accept": 372,
+    "probe:reject": 716, "roundtrip_ok:json": 172, "roundtrip_ok:script":
+    174, "roundtrip_ok:yaml": 173
 },
 "thorough": {
     "class:col.check-opt:ignore_na": 239,
